@@ -33,7 +33,7 @@ Empty == <<>>
 \* Layout) is the state the API reports; and re-encoding the decoded frames through the templates
 \* gives back the stored bytes
 IvSet(h) == UNION {h[k][1]..(h[k][2] - 1) : k \in 1..Len(h)}
-JsOK(js, v) ==
+JsReads(js, v) ==
   LET r == JsRead(js.slots, js.entries, IvSet(js.bf), v.len + 1) IN
   /\ r.ok
   /\ r.len = v.len
@@ -41,8 +41,11 @@ JsOK(js, v) ==
   /\ r.contig = v.contig
   /\ r.writable = v.writable
   /\ js.reenc_bad = 0
-  /\ js.tree_tail = 0
+JsOK(js, v) == JsReads(js, v) /\ js.tree_tail = 0
 JsIfLogged(E) == ("js" \in DOMAIN E) => JsOK(E.js, E.view)
+\* after a crash the tree store may end in a torn node record (the entry that carries the node is
+\* still in the oplog): everything else holds in recovered states as well
+JsIfLoggedRecovered(E) == ("js" \in DOMAIN E) => JsReads(E.js, E.view)
 
 EvsOK(c, evs, expected) ==
   /\ Len(evs) = cores[c].subs
@@ -176,6 +179,7 @@ TCrashOpen(E) ==
   /\ Interrupted(E.c, E.op)
   /\ E.open.t = "ok"
   /\ ViewOK(E.c, E.view)'
+  /\ JsIfLoggedRecovered(E)   \* C06 in recovered states
   /\ UNCHANGED stack
 
 \* storage operation number E.j of the call failed: the call must report an error, and
